@@ -21,7 +21,7 @@ import (
 
 type vfC41Survey struct {
 	From     int
-	Deadline int // ms
+	Deadline int // ms; 0 = the caller's context has no deadline (the node's default survey timeout, 10 s, applies)
 	StartAt  int // ms after start
 	To       int // -1 all, else node index
 }
@@ -49,7 +49,7 @@ func vfC41Gen(rt *rapid.T) vfC41Case {
 	ns := rapid.IntRange(1, 3).Draw(rt, "nsurveys")
 	c.LateMs = rapid.SampledFrom([]int{300, 1500, 4000}).Draw(rt, "lateMs")
 	for i := 0; i < ns; i++ {
-		s := vfC41Survey{From: rapid.IntRange(0, 1).Draw(rt, "from"), Deadline: rapid.SampledFrom([]int{1000, 2000, 5000}).Draw(rt, "deadline"),
+		s := vfC41Survey{From: rapid.IntRange(0, 1).Draw(rt, "from"), Deadline: rapid.SampledFrom([]int{1000, 2000, 5000, 1000, 2000, 5000, 0}).Draw(rt, "deadline"),
 			StartAt: rapid.SampledFrom([]int{0, 0, 100, 700}).Draw(rt, "startAt"), To: -1}
 		if rapid.IntRange(0, 4).Draw(rt, "directed") == 0 {
 			s.To = rapid.IntRange(0, c.Nodes-1).Draw(rt, "to")
@@ -94,6 +94,7 @@ func vfC41Run(t *testing.T, cs vfC41Case, out *vfC41Out, isKnown func(string) bo
 	return vfBubble(t, func() string {
 		var mu sync.Mutex
 		answered := map[string][]time.Duration{} // "surveyIdx/nodeIdx" -> times at which that node called back
+		invoked := map[string]int{}               // "surveyIdx/nodeIdx" -> number of handler invocations
 		start := time.Now()
 		var ws []*vfWorld
 		var bus *vfControlBus
@@ -109,6 +110,9 @@ func vfC41Run(t *testing.T, cs vfC41Case, out *vfC41Out, isKnown func(string) bo
 				if si < 0 || si >= len(cs.Surveys) {
 					return
 				}
+				mu.Lock()
+				invoked[fmt.Sprintf("%d/%d", si, i)]++
+				mu.Unlock()
 				reply := SurveyReply{Code: uint32(100 + i), Data: []byte(fmt.Sprintf("s%d-from-n%d", si, i))}
 				note := func() {
 					mu.Lock()
@@ -196,6 +200,13 @@ func vfC41Run(t *testing.T, cs vfC41Case, out *vfC41Out, isKnown func(string) bo
 
 		results := make([]*vfC41Result, len(cs.Surveys))
 		var wg sync.WaitGroup
+		stopAll, stopAllFn := context.WithCancel(context.Background())
+		defer stopAllFn()
+		for i := range cs.Surveys {
+			if cs.Surveys[i].Deadline == 0 {
+				out.labels = append(out.labels, "survey_without_caller_deadline")
+			}
+		}
 		for i, s := range cs.Surveys {
 			i, s := i, s
 			results[i] = &vfC41Result{}
@@ -203,7 +214,13 @@ func vfC41Run(t *testing.T, cs vfC41Case, out *vfC41Out, isKnown func(string) bo
 			go func() {
 				defer wg.Done()
 				time.Sleep(time.Duration(s.StartAt) * time.Millisecond)
-				ctx, cancel := context.WithTimeout(context.Background(), time.Duration(s.Deadline)*time.Millisecond)
+				var ctx context.Context
+				var cancel context.CancelFunc
+				if s.Deadline > 0 {
+					ctx, cancel = context.WithTimeout(context.Background(), time.Duration(s.Deadline)*time.Millisecond)
+				} else {
+					ctx, cancel = context.WithCancel(stopAll) // no deadline of its own
+				}
 				defer cancel()
 				to := ""
 				if s.To >= 0 {
@@ -231,7 +248,12 @@ func vfC41Run(t *testing.T, cs vfC41Case, out *vfC41Out, isKnown func(string) bo
 			data, _ := enc.EncodeCommand(&controlpb.Command{Uid: uid, SurveyResponse: &controlpb.SurveyResponse{Id: id, Code: 999, Data: []byte("bogus")}})
 			bus.Inject(ids[0], data)
 		}
-		wg.Wait()
+		allDone := make(chan struct{})
+		go func() { wg.Wait(); close(allDone) }()
+		select {
+		case <-allDone:
+		case <-time.After(40 * time.Second): // virtual; far beyond every deadline including the default one
+		}
 		vfSettle()
 		// release held (now late) responses: they must not disturb anything
 		for bus.NumHeld() > 0 {
@@ -253,8 +275,26 @@ func vfC41Run(t *testing.T, cs vfC41Case, out *vfC41Out, isKnown func(string) bo
 		concurrent := len(cs.Surveys) >= 2
 		for i, s := range cs.Surveys {
 			r := results[i]
+			if s.Deadline == 0 {
+				s.Deadline = int(defaultSurveyTimeout / time.Millisecond)
+			}
 			if !r.done {
-				return fmt.Sprintf("survey%d never returned", i)
+				stopAllFn()
+				vfSettle()
+				return fmt.Sprintf("survey%d never returned (40 s after it was started; its deadline was %d ms)", i, s.Deadline)
+			}
+			// the request reaches the handler of every addressed node (requests are never faulted here; the issuing
+			// node invokes its own handler directly)
+			for n := 0; n < cs.Nodes; n++ {
+				if s.To >= 0 && s.To != n {
+					continue
+				}
+				mu.Lock()
+				inv := invoked[fmt.Sprintf("%d/%d", i, n)]
+				mu.Unlock()
+				if inv == 0 {
+					return fmt.Sprintf("survey%d (from n%d, to=%d): the handler of addressed node n%d was never invoked", i, s.From, s.To, n)
+				}
 			}
 			took := r.returned - r.started
 			if took > time.Duration(s.Deadline)*time.Millisecond+50*time.Millisecond {
